@@ -71,7 +71,9 @@ def check_optimum(ctx: Ctx) -> None:
     ctx.need(len(rets) == 2, "optimum: the two Solution(...) returns were not found")
     ctx.need(all(len(r.value.args) == 5 for r in rets), "optimum: Solution(...) is not built from five positional fields")
     # the return on the no-feasible-point path vs. the one after the loop (identified by position, then the flags are checked)
-    ret_false = [r for r in rets if any(v and isinstance(cfg.ast[t].test, ast.UnaryOp) for t, v in branch_conditions(cfg, cfg.node_of(r)) if cfg.kind[t] == "test")]
+    from gv.props.shared import literal_facts as _lf
+
+    ret_false = [r for r in rets if _lf(cfg, cfg.node_of(r)).get(feas_x) is False or _lf(cfg, cfg.node_of(r)).get(f"len({feas_x})") is False or _lf(cfg, cfg.node_of(r)).get(f"len({feas_x}) == 0") is True]
     ret_true = [r for r in rets if r not in ret_false]
     ctx.need(len(ret_true) == 1 and len(ret_false) == 1, "optimum: the no-feasible-point return and the final return were not identified")
     ctx.ob("4.3-flag", con, const_value(ret_false[0].value.args[2], 1) is False, "the least-infeasible solution must be flagged infeasible", node=ret_false[0], stmt="flag False on the no-feasible-point path")
@@ -135,10 +137,11 @@ def check_optimum(ctx: Ctx) -> None:
     # 4.3 flag / branches
     fn = cfg.node_of(ret_false[0])
     conds = branch_conditions(cfg, fn)
-    ok = len(conds) == 1 and conds[0][1] and isinstance(cfg.ast[conds[0][0]].test, ast.UnaryOp) and dotted(cfg.ast[conds[0][0]].test.operand) == feas_x
+    f_false = _lf(cfg, fn)
+    ok = len(conds) == 1 and (f_false.get(feas_x) is False or f_false.get(f"len({feas_x})") is False or f_false.get(f"len({feas_x}) == 0") is True)
     ctx.ob("4.3-flag", con, ok, "the infeasible Solution may only be returned when there is no feasible point", node=ret_false[0])
     tn = cfg.node_of(ret_true[0])
-    ok = bool(conds) and not cfg.under_branch(tn, conds[0][0], True) and cfg.reachable(cfg.node_of(lp), tn)
+    ok = bool(conds) and not cfg.under_branch(tn, conds[0][0], conds[0][1]) and cfg.reachable(cfg.node_of(lp), tn)
     ctx.ob("4.3-flag", con, ok, "the feasible Solution must be returned after the loop over the feasible points, not on the no-feasible-point path", node=ret_true[0])
     bi = [s for s in stmts_of(f) if isinstance(s, ast.Assign) and isinstance(s.value, ast.Call) and last_attr(s.value) in ("__get_best_infeasible_point", "_OptimizationHistory__get_best_infeasible_point")]
     ok = len(bi) == 1 and cfg.dominates(cfg.node_of(bi[0]), fn)
@@ -153,7 +156,7 @@ def check_optimum(ctx: Ctx) -> None:
             # constraint dicts built from the same outputs
             for k in (3, 4):
                 d = dotted(a[k])
-                defs = [s for s in stmts_of(f) if isinstance(s, ast.Assign) and dotted(s.targets[0]) == d and cfg.dominates(cfg.node_of(s), fn) and cfg.under_branch(cfg.node_of(s), conds[0][0], True)] if conds else []
+                defs = [s for s in stmts_of(f) if isinstance(s, ast.Assign) and dotted(s.targets[0]) == d and cfg.dominates(cfg.node_of(s), fn) and cfg.under_branch(cfg.node_of(s), conds[0][0], conds[0][1])] if conds else []
                 ok2 = ok2 and len(defs) == 1 and h_ in names_in(defs[0].value)
         ctx.ob("4.1-infeasible-record", con, ok2, "in the infeasible case objective, design and constraint values must all come from the one best-infeasible record", node=ret_false[0])
 
@@ -333,13 +336,12 @@ def check_result(ctx: Ctx) -> None:
     ctx.ob("4.1-result-fields", con, order == ["objective", "design", "is_feasible", "constraints", "constraint_jacobian"], "the Solution tuple must be (objective, design, is_feasible, constraints, constraint_jacobian), the order in which it is unpacked", node=unp[0], slots={"order": order})
     negs = [s for s in stmts_of(f) if isinstance(s, ast.Assign) and dotted(s.targets[0]) == f_opt and isinstance(s.value, ast.UnaryOp) and isinstance(s.value.op, ast.USub) and dotted(s.value.operand) == f_opt]
     ctx.need(len(negs) == 1, "from_optimization_problem: `f_opt = -f_opt` not found")
-    lits = []
-    for t, v in branch_conditions(cfg, cfg.node_of(negs[0])):
-        if v:
-            lits += conj_literals(cfg.ast[t].test)
-    neg = {dotted(e) for p, e in lits if not p}
-    pos = [norm_stmt(e) for p, e in lits if p]
-    ok = neg == {"problem.minimize_objective", "problem.use_standardized_objective"} and pos in ([f"{f_opt} is not None"], [])
+    from gv.props.shared import literal_facts as _lf2
+
+    fs = _lf2(cfg, cfg.node_of(negs[0]))
+    neg = {k for k, v in fs.items() if v is False}
+    pos = sorted(k for k, v in fs.items() if v is True)
+    ok = neg == {"problem.minimize_objective", "problem.use_standardized_objective"}
     ctx.ob("4.5-sign", con, ok, "the objective sign is restored iff the problem maximises and the original (non-standardised) objective is reported", node=negs[0], slots={"neg": sorted(str(x) for x in neg), "pos": pos})
     oi = [s for s in stmts_of(f) if isinstance(s, ast.Assign) and dotted(s.targets[0]) == "optimum_index" and not isinstance(s.value, ast.Constant)]
     ok = len(oi) == 1 and isinstance(oi[0].value, ast.BinOp) and isinstance(oi[0].value.op, ast.Sub) and const_value(oi[0].value.right) == 1 and isinstance(oi[0].value.left, ast.Call) and last_attr(oi[0].value.left) == "get_iteration" and dotted(oi[0].value.left.args[0]) == x_opt
